@@ -1,7 +1,8 @@
 // c02 harness.
 //
 //	stream 1 (selector 1, laws 102 + 113): real scheduling cycles (allocate / backfill with the real
-//	    gang, priority and proportion plugins) against the action skeleton model;
+//	    gang, priority and proportion plugins) against the action skeleton model; random clusters plus
+//	    the directed family pipefirst/* (directed.go);
 //	stream 2 (selector 2, law 112): the real cache.SchedulerCache.AddBindTask called by concurrent
 //	    goroutines against nearly full nodes, replayed by the model in the order the cache
 //	    serialised the calls;
@@ -48,6 +49,7 @@ func main() {
 		},
 		Gen: func(rng *vh.Rng, n int, emit func(id string, sel int, in []int64, kind string, nontrivial bool, desc any)) {
 			cyc.Gen(rng, n, emit)
+			genPipefirst(rng.Fork(), max(12, n/10), emit)
 			genBind(rng.Fork(), n, emit)
 			genAgent(rng.Fork(), n, emit)
 			genEvict(rng.Fork(), n, emit)
